@@ -258,6 +258,8 @@ func gen(r *rand.Rand, tier string) []string {
 	out = append(out, genTimed(r, tier)...)
 	out = append(out, genConc(r, tier)...)
 	out = append(out, genStress(r, tier)...)
+	out = append(out, genCbConc(r, tier)...)
+	out = append(out, genNConc(r, tier)...)
 	return out
 }
 
@@ -483,6 +485,10 @@ func runMode(input string) string {
 		return runConc(m)
 	case "stress":
 		return runStress(m)
+	case "cbconc":
+		return runCbConc(m)
+	case "nconc":
+		return runNConc(m)
 	default:
 		return runSeq(m)
 	}
@@ -511,6 +517,7 @@ func run(input string) string {
 }
 
 func main() {
+	installNHook()
 	drv.Main(&drv.Prop{
 		ID:      "C02",
 		Gen:     gen,
@@ -540,11 +547,22 @@ func main() {
 			if m["cb"] == "1" {
 				c += "/callback"
 			}
+			if m["mode"] == "nconc" && strings.Contains(obs, "#W:") {
+				c += "/caller-waits-for-a-lock-of-an-outer-level"
+			}
+			if m["mode"] == "cbconc" {
+				if strings.Contains(obs, ":C") {
+					c += "/fired"
+				}
+				if strings.Contains(obs, ":W") {
+					c += "/caller-blocked-while-callback-runs"
+				}
+			}
 			if strings.Contains(obs, "P:") {
 				c += "/panic"
 			}
 			return c
 		},
-		Rule: "seq: random schedule trees (depth<=3, <=6 children, once/const/line leaves incl. zero-token parts and far-future tokens, unlimited parts finished/live/not-begun by minutes to hours of margin, instance_step nodes, 0- and 1-child composites) x random Start/Next/Left sequences (started, unstarted = started by the first Next, double start, Start after Next), a quarter through the onFinish callback wrapper; timed: an unlimited part finishes between two phases of the case; conc: 2-3 goroutines released one atomic section at a time in PRNG-chosen (quick) or exhaustively enumerated (thorough) orders through the verif yield points, children may be nested composites, started and unstarted; stress: 2-8 free-running goroutines on nested trees, every Next/Left result checked for linearizability against the flat spec. distinct = distinct input line; all are non-trivial",
+		Rule: "seq: random schedule trees (depth<=3, <=6 children, once/const/line leaves incl. zero-token parts and far-future tokens, unlimited parts finished/live/not-begun by minutes to hours of margin, instance_step nodes, 0- and 1-child composites) x random Start/Next/Left sequences (started, unstarted = started by the first Next, double start, Start after Next), a quarter through the onFinish callback wrapper; timed: an unlimited part finishes between two phases of the case; conc: 2-3 goroutines released one atomic section at a time in PRNG-chosen (quick) or exhaustively enumerated (thorough) orders through the verif yield points, children may be nested composites, started and unstarted; stress: 2-8 free-running goroutines on nested trees, every Next/Left result checked for linearizability against the flat spec; cbconc: 2-4 goroutines on the onFinish wrapper over small trees, released one action at a time (wrapped call returned / callback entered / callback returned), the callback is held open by the harness while other callers reach the wrapper, a caller blocked in the once-primitive is observed through its goroutine status; nconc: 2-3 goroutines on nested composites with the scheduling points of every level active, released one at a time, callers that wait for a lock of an outer level observed through their goroutine status, results judged like a free run. distinct = distinct input line; all are non-trivial",
 	})
 }
